@@ -191,7 +191,8 @@ class Validator(object):
                 # For complex datatypes element, the reference is the one of the datatype
                 if not is_base_datatype(el.datatype, el.version) and el.datatype is not None:
                     # Component just to search in the datatypes....
-                    ref = load_reference(el.datatype, 'Datatypes_Structs', el.version)
+                    dt_struct = load_reference(el.datatype, 'Datatypes_Structs', el.version)
+                    ref = ('sequence', dt_struct, el.datatype, ref[3], ref[4], ref[5])
                     _is_valid(el, ref, errs, warns)
 
         def _is_valid(el, ref, errs, warns):
